@@ -54,6 +54,7 @@ type Result struct {
 	Truncated    bool               `json:"truncated"`
 	Samples      []string           `json:"sample_obligations"`
 	ExitCodes    map[string]int     `json:"exit_codes,omitempty"`
+	Witnesses    []map[string]uint64 `json:"witness_inputs,omitempty"`
 	CrossUnsat   int                `json:"normal_form_crosscheck_unsat"`
 	CrossUnknown int                `json:"normal_form_crosscheck_timeout"`
 	CrossSat     int                `json:"normal_form_crosscheck_disagree"`
@@ -396,6 +397,13 @@ func (e *Engine) runPath(fn *ssa.Function, prefix []uint64, base Options) {
 	e.call(nil, fn.Pos(), fn, nil)
 	if len(e.tasks) > 0 {
 		e.runTasks(nil)
+	}
+	// a concrete input that drives the harness along this path to its end: used
+	// to validate the engine against a native run of the same harness
+	if len(e.res.Witnesses) < 2 && len(e.res.vars) > 0 {
+		if e.S.Check() == solver.Sat {
+			e.res.Witnesses = append(e.res.Witnesses, e.S.Model(e.res.vars))
+		}
 	}
 }
 
